@@ -2,6 +2,7 @@ package main
 
 import (
 	"fmt"
+	"math"
 
 	"github.com/sahandsafizadeh/qeep/tensor"
 	"qmc/core"
@@ -233,6 +234,107 @@ func checkC06(c *core.Ctx) {
 			return core.Pass()
 		})
 	}
+	// negative zero: "hold exactly the requested values" / "move elements
+	// without changing them" includes the sign of zero (compared bit-exactly)
+	negz := math.Copysign(0, -1)
+	bitsEq := func(got tensor.Tensor, exp *ref.T, what string) core.Verdict {
+		g := rt.Read(got)
+		if !ref.SameShape(g.Shape, exp.Shape) {
+			return core.Fail("%s: shape %v, expected %v", what, g.Shape, exp.Shape)
+		}
+		for i := range exp.V {
+			if math.Float64bits(g.V[i]) != math.Float64bits(exp.V[i]) {
+				return core.Fail("%s: element %d is %v (bits %x), requested %v (bits %x)", what, i, g.V[i], math.Float64bits(g.V[i]), exp.V[i], math.Float64bits(exp.V[i]))
+			}
+		}
+		return core.Pass()
+	}
+	for _, s := range [][]int{{}, {3}, {2, 2}, {2, 1, 2}} {
+		s := s
+		c.Case(fmt.Sprintf("negzero/%v", s), true, func() core.Verdict {
+			for _, v := range []float64{negz, 0, 1, -1} {
+				f, err := tensor.Full(ref.CopyShape(s), v, rt.Conf(false))
+				if err != nil {
+					return core.Fail("Full: %v", err)
+				}
+				if r := bitsEq(f, ref.FullOf(s, v), fmt.Sprintf("Full(%v, %v)", s, v)); !r.OK {
+					return r
+				}
+			}
+			x := ref.New(s)
+			for i := range x.V {
+				x.V[i] = []float64{negz, 0, 2.5, negz}[i%4]
+			}
+			rx := rt.Make(x, false)
+			if r := bitsEq(rx, x, "TensorOf with negative zeros"); !r.OK {
+				return r
+			}
+			ops := []ref.Op{{K: "Reshape", Shape: []int{ref.Size(s)}}, {K: "UnSqueeze", Dim: 0}, {K: "Slice"}, {K: "Broadcast", Shape: append([]int{2}, s...)}}
+			if len(s) >= 1 {
+				ops = append(ops, ref.Op{K: "Flatten", Dim: 0})
+			}
+			if len(s) >= 2 {
+				ops = append(ops, ref.Op{K: "Transpose"})
+			}
+			for _, op := range ops {
+				exp, _ := ref.Eval(op, []*ref.T{x})
+				got, err := rt.Apply(op, []tensor.Tensor{rx})
+				if err != nil {
+					return core.Fail("%s: %v", op, err)
+				}
+				if r := bitsEq(got, exp, op.String()+" of a tensor with negative zeros"); !r.OK {
+					return r
+				}
+			}
+			if len(s) >= 1 {
+				exp, _ := ref.Eval(ref.Op{K: "Concat", Dim: 0}, []*ref.T{x, x})
+				got, err := tensor.Concat([]tensor.Tensor{rx, rx}, 0)
+				if err != nil {
+					return core.Fail("Concat: %v", err)
+				}
+				if r := bitsEq(got, exp, "Concat of tensors with negative zeros"); !r.OK {
+					return r
+				}
+				z, _ := tensor.Zeros(ref.CopyShape(s), rt.Conf(false))
+				pg, err := z.Patch(nil, rx)
+				if err != nil {
+					return core.Fail("Patch: %v", err)
+				}
+				if r := bitsEq(pg, x, "Patch of a block with negative zeros"); !r.OK {
+					return r
+				}
+			}
+			return core.Pass()
+		})
+	}
+	// an index object reused for a second call on a tensor of another size: a
+	// {0,0} entry still means the whole dimension of THAT tensor
+	c.Case("indexreuse", true, func() core.Verdict {
+		ix := []tensor.Range{{From: 0, To: 0}, {From: 0, To: 1}}
+		small := rt.Make(enum.Labels([]int{2, 3}, 0), false)
+		large := rt.Make(enum.Labels([]int{4, 3}, 100), false)
+		a, err := small.Slice(ix)
+		if err != nil {
+			return core.Fail("Slice: %v", err)
+		}
+		b, err := large.Slice(ix)
+		if err != nil {
+			return core.Fail("second Slice with the same index object: %v", err)
+		}
+		if !ref.SameShape(a.Shape(), []int{2, 1}) || !ref.SameShape(b.Shape(), []int{4, 1}) {
+			return core.Fail("index {{0,0},{0,1}} reused on [2,3] then [4,3]: shapes %v and %v, expected [2 1] and [4 1] (index is now %v)", a.Shape(), b.Shape(), ix)
+		}
+		pix := []tensor.Range{{From: 0, To: 0}, {From: 1, To: 2}}
+		p1 := rt.Make(enum.Labels([]int{2, 1}, 500), false)
+		p2 := rt.Make(enum.Labels([]int{3, 1}, 600), false)
+		if _, err := large.Patch(pix, p1); err != nil {
+			return core.Fail("Patch: %v", err)
+		}
+		if _, err := large.Patch(pix, p2); err != nil {
+			return core.Fail("second Patch with the same index object and a 3x1 source: %v (index is now %v)", err, pix)
+		}
+		return core.Pass()
+	})
 	// Eye
 	for _, n := range []int{1, 2, 3, 4, 5, 17, 40} {
 		n := n
